@@ -2356,6 +2356,16 @@ class SEVM:
         if not ret_size >= 0:
             raise ValueError(ret_size)
 
+        # a value-bearing CALL is a state modification, not allowed in a static context
+        # TODO: handle symbolic values (requires branching on fund != 0)
+        if (
+            op == OP_CALL
+            and ex.message().is_static
+            and fund.is_concrete
+            and fund.value != 0
+        ):
+            raise WriteInStaticContext(ex.context_str())
+
         pranked_caller, pranked_origin = ex.resolve_prank(to)
         arg = ex.st.mslice(arg_loc, arg_size)
 
